@@ -4,10 +4,16 @@ TARGET = dict(
           "through ts_encaps driven by its pull protocol (status event -> splice until not ready -> eos) or through ts_pes_encaps + the reference packetiser, every emitted packet parsed by an independent bit-level reference, "
           "then ts_decaps -> ts_pes_decaps compared octet for octet; decaps: reference-packetised well-formed sequences (adaptation fields 0..183, stuffing, PCR/OPCR/private data, adaptation-only, duplicate, missing and foreign-PID packets) "
           "through [ts_pid_filter][ts_split] ts_decaps ts_pes_decaps; corrupt: arbitrary packets in exact-size areas. "
+          "An extension block of the tape adds: PSI mode (sections of 3..4098 octets through ts_encaps with the mpegtspsi flow definition, or through a reference section packetiser with several sections per packet and "
+          "non-zero pointer fields, into ts_decaps; an independent section reassembler written from ISO/IEC 13818-1 2.4.4 recovers the sections from the packets and from ts_decaps' output); a late ubuf manager, "
+          "release of ts_pes_encaps while it buffers, set_cr_prog, max_delay, getters, unknown commands, refused flow definitions, a flow-definition change in mid-stream (PID, stream id, header, rates), "
+          "set_pcr_interval / cancel, set_tb_size, splice(T, NULL), UPIPE_FLUSH, set_max_length in mid-stream; ts_split outputs added and released and pid_filter add/del in mid-stream, "
+          "a changed flow definition set again on ts_decaps, get_packets_lost; routing changes in the corrupt executor. "
           "non-trivial = an access unit / PES spanning >= 3 packets with an adaptation field in the last, or a stream with a duplicate or missing packet (corrupt: a packet reached ts_pes_decaps); distinct by hash of the decoded case"),
     assumptions=["repository sources compiled against the stand-in headers /verif/shim/bitstream/mpeg/{ts,pes}.h (written from ISO/IEC 13818-1)",
                  "independent bit-level reference packetiser/parser in the harness (harness/C15_ref.h) shares no code with the stand-in",
-                 "ts_encaps preconditions as guaranteed by upipe_ts_mux: octetrate, tb_rate >= octetrate, PID, PES id, cr_sys on every uref, cr_prog when a PCR interval is set",
+                 "ts_encaps preconditions as guaranteed by upipe_ts_mux: octetrate, tb_rate >= octetrate, PID, PES id, cr_sys on every uref, cr_prog when a PCR interval is set; splice(T, NULL) and UPIPE_FLUSH only while every held unit has a dts_sys (upipe_ts_tstd dates every uref)",
+                 "PCR-due and set_cr_prog oracles apply only while the program clock at the mux date is non-negative (a PCR of -1 collides with the 'no PCR' sentinel)",
                  "ASan + exact-size packet areas"],
     execs=[
         dict(name="roundtrip", harness="harness/C15_roundtrip.c", share=1.0, case_scale=0.5,
@@ -21,7 +27,7 @@ TARGET = dict(
 )
 META = dict(
     technique="property-based round-trip and differential testing against an independent bit-level TS/PES reference (rapidcheck tapes -> C executors) under ASan",
-    text="Three executors: (1) generated access units through ts_encaps (pull protocol of the mux) or ts_pes_encaps, every packet parsed by an independent reference (188 octets, sync, PID, continuity, adaptation field, PES header, PTS/DTS/PCR values), then ts_decaps + ts_pes_decaps compared with the generated units; (2) reference-packetised well-formed sequences with every adaptation-field length, PCRs, duplicates, missing and foreign-PID packets through pid_filter/split/decaps/pes_decaps against an ISO 13818-1 model; (3) arbitrary packets in exact-size areas: no fault, no assert, no leak. Sampling.",
+    text="Three executors: (1) generated access units through ts_encaps (pull protocol of the mux) or ts_pes_encaps, every packet parsed by an independent reference (188 octets, sync, PID, continuity, adaptation field, PES header, PTS/DTS/PCR values), then ts_decaps + ts_pes_decaps compared with the generated units; (2) reference-packetised well-formed sequences with every adaptation-field length, PCRs, duplicates, missing and foreign-PID packets through pid_filter/split/decaps/pes_decaps against an ISO 13818-1 model; (3) arbitrary packets in exact-size areas: no fault, no assert, no leak. PSI sections through ts_encaps / a reference section packetiser / ts_decaps are recovered by an independent section reassembler; control histories (PCR interval, set_cr_prog, splice-drop, flush, flow-definition changes, ts_split outputs and pid_filter PIDs changing in mid-stream, get_packets_lost) are judged against the documented meaning of each command. Sampling.",
     design_ref="DESIGN.md section 6, C15; section 5 (stand-in headers)",
-    note="decided for the repository sources compiled against the stand-in biTStream headers; PSI mode of ts_encaps, scrambling and the T-STD timing values of the status event are not checked.",
+    note="decided for the repository sources compiled against the stand-in biTStream headers; scrambling, the T-STD timing values of the status event, the queue-overflow drop of ts_encaps (max_length*2) and allocation failures are not checked.",
 )
